@@ -246,12 +246,13 @@ class BehavioralRTLIRTypeCheckVisitorL2( BehavioralRTLIRTypeCheckVisitorL1 ):
 
       # Both sides are implicit
       elif is_lhs_inferred and is_rhs_inferred:
+        # re-size the narrower side to the wider one (as visit_BinOp does)
         if lhs_nbits >= rhs_nbits:
           target_nbits = lhs_nbits
-          op = node.body
+          op = node.orelse
         else:
           target_nbits = rhs_nbits
-          op = node.orelse
+          op = node.body
         context = rt.NetWire(rdt.Vector(target_nbits))
         s.enforcer.enter( s.blk, context, op )
 
@@ -269,7 +270,12 @@ class BehavioralRTLIRTypeCheckVisitorL2( BehavioralRTLIRTypeCheckVisitorL1 ):
               f"the {imp_str} side requires more bits ({implicit})!" )
         s.enforcer.enter( s.blk, context, op )
 
-    node.Type = node.body.Type
+    # The if-expression is as wide as its wider branch (an implicit branch that
+    # is not a plain literal keeps its own width after enforcement).
+    if node.orelse.Type.get_dtype().get_length() > node.body.Type.get_dtype().get_length():
+      node.Type = node.orelse.Type
+    else:
+      node.Type = node.body.Type
     node._is_explicit = node.body._is_explicit or node.orelse._is_explicit
 
   def visit_UnaryOp( s, node ):
